@@ -42,6 +42,8 @@ func (h *hx) round(r int) {
 		h.mutFormat(s)
 	}
 	h.clientScenarios(r, A, B, c0, c1)
+	h.e2ePair(A, c0, hostnames[0], t0+100*sec)
+	h.e2ePair(B, c1, hostnames[1], t0+200*sec)
 }
 
 var offsets = []int64{-sec, -1, 0, 1, sec}
@@ -146,6 +148,24 @@ func (h *hx) mutVerify(s *sess, others []*sess, ctx []srvCfg) {
 		h.try(req{s.srv, s.host, now, with(base, "opaque", tok), "", "token_as_opaque"})
 		h.try(req{s.srv, s.host, now + sec, dupBack(base, "bearer", tok), "", "challenge_answer_plus_bearer"})
 		h.try(req{s.srv, s.host, now + sec, dupBack(with(base, "sig", h.pv(h.w.NewGarbage())), "bearer", tok), "", "bad_sig_plus_good_bearer"})
+	}
+	// a challenge minted in another context, answered for this one: the signature is
+	// made over (that challenge, this server's key, this hostname) by that session's client
+	for oi, o := range others {
+		oopq, ok1 := get(o.stage["c2"], "opaque")
+		_, _, ost, ok2 := blobParts(oopq)
+		if !ok1 || !ok2 {
+			continue
+		}
+		items := with(with(base, "opaque", oopq), "sig", h.pv(sym.Sig(o.cli, sym.MsgClient(ost.Chal, spk, hostT), 0)))
+		items = with(items, "public-key", h.pv(sym.Pub(o.cli)))
+		h.try(req{s.srv, s.host, now, items, "", fmt.Sprintf("transplanted_challenge_%d", oi)})
+	}
+	// the token as the state, with a signature over the empty challenge it carries
+	if tok, ok := get(s.stage["c4"], "bearer"); ok {
+		items := with(with(base, "opaque", tok), "sig", h.pv(sym.Sig(s.cli, sym.MsgClient(sym.Empty(), spk, hostT), 0)))
+		items = with(items, "public-key", h.pv(sym.Pub(s.cli)))
+		h.try(req{s.srv, s.host, now + sec, items, "", "token_as_opaque_signed_empty_challenge"})
 	}
 	// short / missing challenge-server (server-initiated: the server must sign it)
 	h.try(req{s.srv, s.host, now, with(base, "challenge-server", h.w.PVRaw("short")), "", "challenge_server_short"})
